@@ -674,6 +674,31 @@ impl TypeChecker {
                 self.check_model_or_class_constructor_call(name, &fields, args, span);
                 return ResolvedType::Named(name.to_string());
             }
+
+            // Newtype construction `T(x)`: exactly one positional argument of the underlying type.
+            let newtype_underlying: Option<ResolvedType> = self.lookup_type_info(name).and_then(|info| match info {
+                TypeInfo::Newtype(nt) => Some(nt.underlying.clone()),
+                _ => None,
+            });
+            if let Some(underlying) = newtype_underlying {
+                let arg_types = self.check_call_arg_types(args);
+                if args.len() != 1 || !matches!(args[0], CallArg::Positional(_)) {
+                    self.errors.push(CompileError::type_error(
+                        format!(
+                            "Newtype '{}' is constructed from exactly one positional argument: {}(value)",
+                            name, name
+                        ),
+                        span,
+                    ));
+                } else if !self.types_compatible(&arg_types[0], &underlying) {
+                    self.errors.push(errors::type_mismatch(
+                        &underlying.to_string(),
+                        &arg_types[0].to_string(),
+                        Self::call_arg_expr(&args[0]).span,
+                    ));
+                }
+                return ResolvedType::Named(name.to_string());
+            }
         }
 
         // Plain call of a declared (non-generic) function: arguments are checked against the parameter types,
